@@ -14,6 +14,14 @@ structure Inv (Sm : Sem V) (S : Store) (envO : List V) (st : St) (bindN : List (
   memo : ∀ o v, st.memoT.lookup o = some v → ∃ vo, envO[o]? = some vo ∧ evalToks envN v = .ok [.val vo]
   inputs : ∀ i ty, S.nodes[i]? = some ⟨ty, .none⟩ → (st.memoT.lookup i).isSome = true
 
+theorem evalTok_ref_inv0 (env : List V) (i : Nat) (r : RTok V) (h : evalTok env (.ref i) = .ok r) : ∃ vo, env[i]? = some vo ∧ r = .val vo := by
+  simp only [evalTok] at h
+  cases hj : env[i]? with
+  | none => simp [hj, throw, throwThe, MonadExceptOf.throw] at h
+  | some m =>
+    simp only [hj, pure, Except.pure, Except.ok.injEq] at h
+    exact ⟨m, rfl, h.symm⟩
+
 section
 variable (Sm : Sem V) (S : Store) (pats : List Pattern) (bindO : List (Nat × V)) (envO : List V)
 
@@ -152,15 +160,27 @@ theorem nOut_single (a : App) (h : a.out = [.ref 0]) : a.nOut = 1 := by
   rw [App.nOut, h]; rfl
 
 omit hO in
-/-- Output types of a rebuilt application of the pure node language: the type of the old output. -/
-theorem outTypes_pure (st : St) (a a' : App) (i : Nat) (ty : Ty) (r : List Ty × List Tok)
-    (hn : S.nodes[i]? = some ⟨ty, .app a⟩) (hout : a.out = [.ref 0]) (hp : a.head.isPure = true)
-    (h : outTypes S st a a' i = .ok r) : r = ([ty], [.ref 0]) := by
+/-- Output types of a rebuilt application of the node language: the type of the old output, or -- `CallInplace` -- the type of
+the NEW `xs`. -/
+theorem outTypes_eval (st : St) (a a' : App) (i : Nat) (ty : Ty) (r : List Ty × List Tok)
+    (hn : S.nodes[i]? = some ⟨ty, .app a⟩) (hout : a.out = [.ref 0]) (hp : a.head.evaluable = true)
+    (h : outTypes S st a a' i = .ok r) : ∃ ty', r = ([ty'], [.ref 0]) ∧ (a.head ≠ .callInplace → ty' = ty) ∧
+      (a.head = .callInplace → ∃ j n rest, a'.pre = [.ref j] :: rest ∧ st.nodes[j]? = some n ∧ ty' = n.ty) := by
   unfold outTypes at h
   split at h
-  · rename_i hh; rw [hh] at hp; simp [Head.isPure] at hp
-  · rename_i hh; rw [hh] at hp; simp [Head.isPure] at hp
-  · obtain ⟨tys, h1, h⟩ := bind_ok.1 h
+  · rename_i hh
+    split at h
+    · rename_i j rest hpre
+      split at h
+      · rename_i n hj
+        simp only [pure, Except.pure, Except.ok.injEq] at h
+        subst h
+        exact ⟨n.ty, rfl, fun hne => (hne hh).elim, fun _ => ⟨j, n, rest, hpre, hj, rfl⟩⟩
+      · cases h
+    · cases h
+  · rename_i hh; rw [hh] at hp; simp [Head.evaluable, Head.isPure, Head.isEffect] at hp
+  · rename_i hne1 _
+    obtain ⟨tys, h1, h⟩ := bind_ok.1 h
     simp only [pure, Except.pure, Except.ok.injEq] at h
     subst h
     rw [nOut_single a hout] at h1
@@ -168,12 +188,23 @@ theorem outTypes_pure (st : St) (a a' : App) (i : Nat) (ty : Ty) (r : List Ty ×
     simp only [pure, Except.pure, bind, Except.bind, Except.ok.injEq] at h1
     subst h1
     rw [hout]
+    exact ⟨ty, rfl, fun _ => rfl, fun hc => (hne1 hc).elim⟩
+
+omit hO in
+theorem tyOK_of_shapeOf_eq (ty : Ty) (v x : V) (h : Sm.shapeOf v = Sm.shapeOf x) (hx : tyOK Sm ty x = true) : tyOK Sm ty v = true := by
+  cases ty with
+  | value => rfl
+  | tensor s => simpa [tyOK, h] using hx
+  | convertible s c =>
+    cases s with
+    | none => rfl
+    | some s => simpa [tyOK, h] using hx
 
 /-- `rebuild` of a node of an evaluated store keeps the invariant (the rebuilt node has the value of the old one). -/
 theorem rebuild_sound (h : List Tok → St → R (List Tok × St)) (hh : VSound Sm S envO h) (a : App) (i : Nat) (ty : Ty) (st st' : St)
     (bindN : List (Nat × V)) (envN : List V) (hn : S.nodes[i]? = some ⟨ty, .app a⟩) (hr : rebuild S h a i st = .ok st')
     (hI : Inv Sm S envO st bindN envN) : ∃ ext, Inv Sm S envO st' bindN (envN ++ ext) := by
-  obtain ⟨vo, ea, hv, hea, happ, hout, hpure⟩ := old_app Sm S bindO envO hO i ty a hn
+  obtain ⟨vo, ea, hv, hea, happ, hout, hpure, hio⟩ := old_app Sm S bindO envO hO i ty a hn
   have hty := old_tyOK Sm S bindO envO hO i _ vo hn hv
   obtain ⟨pre, args, kwargs, deps, e1, e2, e3, e4, rfl⟩ := (evalApp_ok envO a ea).1 hea
   unfold rebuild at hr
@@ -186,9 +217,32 @@ theorem rebuild_sound (h : List Tok → St → R (List Tok × St)) (hh : VSound 
   obtain ⟨x2, hI2, f2⟩ := mapOperands_sound Sm S envO h hh _ _ _ _ bindN _ _ h2 hI1 e2
   obtain ⟨x3, hI3, f3⟩ := mapKwargs_sound Sm S envO h hh _ _ _ _ bindN _ _ h3 hI2 e3
   obtain ⟨x4, hI4, f4⟩ := mapOperands_sound Sm S envO h hh _ _ _ _ bindN _ _ h4 hI3 e4
-  have hot := outTypes_pure S st4 a _ i ty _ hn hout hpure h5
+  obtain ⟨ty', hot, hty1, hty2⟩ := outTypes_eval S st4 a _ i ty _ hn hout hpure h5
   simp only [Prod.mk.injEq] at hot
   obtain ⟨rfl, rfl⟩ := hot
+  -- the type of the rebuilt node is true of the old value
+  have hty' : tyOK Sm ty' vo = true := by
+    by_cases hc : a.head = .callInplace
+    · obtain ⟨j, n, rest, hpre', hj, rfl⟩ := hty2 hc
+      simp only at hpre'
+      subst hpre'
+      simp only [inplaceOK, hc] at hio
+      split at hio
+      · rename_i _ x restE
+        obtain ⟨r0, rs0, g1, _, g3⟩ := (evalOperands_cons _ _ _ _).1 f1
+        simp only [List.cons.injEq] at g3
+        obtain ⟨rfl, _⟩ := g3
+        obtain ⟨x', hx', hxe⟩ := evalTok_ref_inv0 _ j _ ((evalToks_single _ _ _).1 g1)
+        simp only [RTok.val.injEq] at hxe
+        subst hxe
+        have hx4 : (envN ++ x1 ++ x2 ++ x3 ++ x4)[j]? = some x := by
+          have hjl : j < (envN ++ x1).length := (List.getElem?_eq_some_iff.1 hx').1
+          rw [List.append_assoc (envN ++ x1), List.append_assoc (envN ++ x1), List.getElem?_append_left hjl]
+          exact hx'
+        have := old_tyOK Sm ⟨st4.nodes, []⟩ bindN _ hI4.env j n x hj hx4
+        exact tyOK_of_shapeOf_eq Sm n.ty vo x (by simpa using hio) this
+      · cases hio
+    · rw [hty1 hc]; exact hty
   simp only at hr
   split at hr
   · cases hr
@@ -196,7 +250,7 @@ theorem rebuild_sound (h : List Tok → St → R (List Tok × St)) (hh : VSound 
     subst hr
     -- the rebuilt node evaluates to the value of the old node
     have hev : evalNode Sm bindN (envN ++ x1 ++ x2 ++ x3 ++ x4)
-        ⟨ty, .app { head := a.head, pre := pre', args := args', kwargs := kwargs', deps := deps', out := [.ref 0] }⟩ = .ok vo := by
+        ⟨ty', .app { head := a.head, pre := pre', args := args', kwargs := kwargs', deps := deps', out := [.ref 0] }⟩ = .ok vo := by
       simp only [evalNode, hpure, beq_self_eq_true, Bool.and_self, if_true]
       have : evalApp (envN ++ x1 ++ x2 ++ x3 ++ x4)
           { head := a.head, pre := pre', args := args', kwargs := kwargs', deps := deps', out := [.ref 0] } =
@@ -206,8 +260,8 @@ theorem rebuild_sound (h : List Tok → St → R (List Tok × St)) (hh : VSound 
           by simpa [List.append_assoc] using evalOperands_mono _ (x3 ++ x4) _ _ f2,
           by simpa [List.append_assoc] using evalKwargs_mono _ x4 _ _ f3, f4, rfl⟩
       rw [this]
-      rw [hout] at happ
-      simp only [bind, Except.bind, happ, hty, if_true, pure, Except.pure]
+      rw [hout] at happ hio
+      simp only [bind, Except.bind, happ, hty', hio, Bool.and_self, if_true, pure, Except.pure]
     have hlen : st4.nodes.length = (envN ++ x1 ++ x2 ++ x3 ++ x4).length := hI4.env.1.symm
     have hI5 := hI4.push _ vo hev
     refine ⟨x1 ++ x2 ++ x3 ++ x4 ++ [vo], ?_⟩
@@ -308,7 +362,8 @@ theorem optTok_sound : ∀ fuel, GSound Sm S envO (optTok pats S fuel)
                   (evalOperands_cons _ _ _ _).2 ⟨_, [lits lit], f2,
                     (evalOperands_cons _ _ _ _).2 ⟨_, [], evalToks_lits _ lit hfree', evalOperands_nil _, rfl⟩, rfl⟩,
                   rfl, evalOperands_nil _, rfl⟩
-              simp only [evalNode, Head.isPure, beq_self_eq_true, Bool.and_self, if_true, this, bind, Except.bind, a3 hfree', tyOK,
+              have hio2 : inplaceOK Sm (mergedCall f xE lit) vo = true := rfl
+              simp only [evalNode, Head.evaluable, Head.isPure, Head.isEffect, hio2, Bool.or_false, beq_self_eq_true, Bool.and_self, if_true, this, bind, Except.bind, a3 hfree', tyOK,
                 pure, Except.pure]
             have hlen : st2.nodes.length = (envN ++ x1 ++ x2).length := hI2.env.1.symm
             have hI3 := hI2.push _ vo hev
